@@ -52,3 +52,6 @@ def run(ctx):
     from .. import intwidth
 
     intwidth.int_narrowing(ctx)  # 'orders raised': the offset tables grow with the order; they must not wrap
+    from .. import spaces as _spaces
+
+    _spaces.localised_inherit(ctx)  # singular parts, sparse forms, potentials and FMM point maps are computed on the localised companion space
